@@ -7,7 +7,7 @@ CHECK = {
     "technique": "stateless model checking of the real step scheduler (machine-instrumented at check time) under a cooperative scheduler with virtual time: all non-preemptive schedules of every program of a finite family, preemption-bounded schedules of a sharp list",
     "rule": "",
     "harnesses": [H("e1", sub="C05", **_E1),
-                  H("c05real", shards={"quick": "ncpu", "thorough": "ncpu"})],
+                  H("c05real", shards={"quick": "ncpu", "thorough": "ncpu"}, inpkg={"internal/agent": ["e1/zz_verif_e1_agent.go"]})],
     "assumptions": [],
 }
 TEXT = {"engine": "E1-coop", "design_ref": "DESIGN.md §3.1, §5 C05",
